@@ -2,7 +2,7 @@
 
 A real directory tree with canary files outside every root (parent directory, prefix-sharing sibling,
 absolute path, a sibling of the PICO-8 carts root sharing its prefix); every path string of <= N atoms
-over {x, lib, ., .., /, sub/, ../, foobar/, ?, ;, <abs>, carts2/, ~, ~/, carts/} x load-path settings x cart locations,
+over {x, lib, ., .., /, sub/, ../, foobar/, ?, ;, <abs>, carts2/, ~, ~/, carts/, byte 0xff raw and as \\255} x load-path settings x cart locations,
 driven through the public entries (`p8tool build --lua main.lua`, `file.from_file(cart.p8)`) with
 builtins.open / io.open wrapped in-process.  Every opened path inside the sandbox must lie under a
 permitted root, else the load must have failed before opening.
@@ -17,7 +17,7 @@ import tempfile
 from lib.core import ShardResult
 
 LEVEL = 'exploration'
-RULE = ('every concatenation of <= N atoms (quick 3, thorough 5) over 15 atoms as require() string (in 9 spellings/positions of the call: parentheses, string-call sugar with each quote kind, with options, inside expressions) x 5 load-path '
+RULE = ('every concatenation of <= N atoms (quick 3, thorough 5) over 17 atoms as require() string (in 9 spellings/positions of the call: parentheses, string-call sugar with each quote kind, with options, inside expressions) x 5 load-path '
         'settings (default, ?/init.lua, lib/?.lua, absolute dir, PICO8_LUA_PATH environment variable) and as #include '
         'path x 4 cart locations (plain directory, below the PICO-8 carts root, in and below a sibling "carts2" sharing '
         'the root\'s name prefix); non-trivial = the string contains "..", "/" at the start, an absolute path or a '
@@ -29,8 +29,9 @@ ASSUMPTIONS = ['only opens of paths inside the sandbox tree are judged (the inte
                'entry; for #include: the carts root if the cart is below it, else the cart\'s directory']
 BOUNDS = {'quick': {'atoms': 3}, 'thorough': {'atoms': 5}}
 
-ATOMS = ['x', 'lib', '.', '..', '/', 'sub/', '../', 'foobar/', '?', ';', '<abs>', 'carts2/', '~', '~/', 'carts/']
+ATOMS = ['x', 'lib', '.', '..', '/', 'sub/', '../', 'foobar/', '?', ';', '<abs>', 'carts2/', '~', '~/', 'carts/', '\xff', '\\255']
 INCLUDE_ONLY = ('carts2/', 'carts/')
+REQUIRE_ONLY = ('\xff', '\\255')     # a byte that is not UTF-8, raw and as a Lua escape
 
 
 class Sandbox(object):
@@ -141,7 +142,7 @@ FORMS = ['paren', 'sugar-dq', 'sugar-sq', 'sugar-long', 'assign-sugar', 'paren-o
 
 
 def require_call(p, form):
-    q = p.encode()
+    q = p.encode('latin-1')
     return {'paren': b'require("' + q + b'")\n',
             'sugar-dq': b'require "' + q + b'"\n',
             'sugar-sq': b"require'" + q + b"'\n",
@@ -327,7 +328,7 @@ def run_shard(item):
         for i, (p, combo) in enumerate(strings(tier, sb)):
             if i % n != k:
                 continue
-            if '"' in p or '\\' in p or '\n' in p:
+            if '"' in p or '\n' in p:
                 continue
             # require(): the include-only atom 'carts2/' adds nothing there
             if not any(a in combo for a in INCLUDE_ONLY):
@@ -345,7 +346,7 @@ def run_shard(item):
                         check_require_nested(sb, p, lp, res)
                     check_require_nested(sb, p, 'default', res, FORMS[1 + i % (len(FORMS) - 1)])
             # #include: the path must be one \S+ token
-            if p and ' ' not in p:
+            if p and ' ' not in p and not any(a in combo for a in REQUIRE_ONLY):
                 for loc in CART_LOCS:
                     check_include(sb, p, loc, res)
         if k == 0:
